@@ -20,7 +20,10 @@ META = {
     "is plain text. (b) every sequence of <= 4 (thorough 5) fragments over {{ }} {% %} {# #} a space \\n raw endraw "
     "- + that does not contain the terminator is used as a comment body and as a raw body between fixed context "
     "text, with the -/+ modifiers of the surrounding tags and trim/lstrip settings: a comment contributes nothing, "
-    "a raw body is output verbatim up to the documented effect of its own tags' modifiers.",
+    "a raw body is output verbatim up to the documented effect of its own tags' modifiers. (c) every string of <= 3 "
+    "(thorough 4) symbols over {a < > & ' \" space \\n} as template text and as raw body, next to a {{ x }} output, at "
+    "top level and inside {% autoescape true|false|flag %} (flag True/False), in environments with autoescape off and "
+    "on: the text/raw body is verbatim in every mode, only the value of x is escaped where the region is on.",
     "note": "Bounded lengths; at the longest length only the parse result is compared in all six configurations "
     "(thorough additionally renders that length under newline_sequence='\\r\\n'); for the longest bodies only a "
     "sub-grid of modifiers/settings is used (see bounds). 'Terminator' is decided by an independent regular "
@@ -271,19 +274,80 @@ def _bshape(body):
     return ",".join(have) + ("^" if body[:1].isspace() else "") + ("$" if body[-1:].isspace() else "")
 
 
+# --------------------------------------------------------------------------
+# (c) template text and raw bodies under autoescaping
+
+ESC_SYMS = ("a", "<", ">", "&", "'", '"', " ", "\n")
+X_VALUE = "<x>"
+X_ESCAPED = "&lt;x&gt;"  # documented HTML escaping of the *value*; template text is never escaped
+# (label, opening, closing, render kwargs, region autoescape state: None = the environment's setting)
+ESC_MODES = [
+    ("top", "", "", {}, None),
+    ("const-true", "{% autoescape true %}", "{% endautoescape %}", {}, True),
+    ("const-false", "{% autoescape false %}", "{% endautoescape %}", {}, False),
+    ("flag-true", "{% autoescape flag %}", "{% endautoescape %}", {"flag": True}, True),
+    ("flag-false", "{% autoescape flag %}", "{% endautoescape %}", {"flag": False}, False),
+]
+
+
+def esc_shard(arg) -> core.Part:
+    from jinja2 import Environment
+
+    first, lengths = arg
+    p = core.Part()
+    for n in lengths:
+        rest = n - len(first)
+        if rest < 0:
+            continue
+        for tail in itertools.product(ESC_SYMS, repeat=rest):
+            text = "".join(tuple(first) + tail)
+            for place in ("text", "raw"):
+                piece = text if place == "text" else "{% raw %}" + text + "{% endraw %}"
+                for label, opening, closing, kwargs, region in ESC_MODES:
+                    src = opening + piece + "{{ x }}" + piece + closing + "."
+                    for env_auto in (False, True):
+                        on = env_auto if region is None else region
+                        exp = text + (X_ESCAPED if on else X_VALUE) + text + "."
+                        p.evals += 1
+                        try:
+                            got = Environment(autoescape=env_auto).from_string(src).render(x=X_VALUE, **kwargs)
+                        except Exception as e:  # noqa: BLE001
+                            got = ("exc", type(e).__name__, str(e))
+                        if any(c in text for c in "<>&'\""):
+                            p.sig(("esc", place, label, env_auto, "".join(sorted(set(text) & set("<>&'\"")))))
+                        if got != exp:
+                            k2 = "raises" if isinstance(got, tuple) else "output"
+                            p.violation(f"C11/autoescape-{place}/{k2}/{label}/env={int(env_auto)}", {
+                                "msg": f"source {src!r} Environment(autoescape={env_auto}) render(x={X_VALUE!r}, "
+                                       f"**{kwargs!r}): got {got!r}, expected {exp!r} (template text / raw body verbatim)",
+                                "source": src, "got": repr(got), "expected": exp, "size": len(src),
+                                "script": "import jinja2\n"
+                                          f"env = jinja2.Environment(autoescape={env_auto})\n"
+                                          f"print(repr(env.from_string({src!r}).render(x={X_VALUE!r}, **{kwargs!r})))\n"
+                                          f"print('expected', {exp!r})\n",
+                            })
+            p.sample({"part": "c", "text": text,
+                      "source": "{% autoescape flag %}" + text + "{{ x }}" + text + "{% endautoescape %}."}, cap=1)
+    return p
+
+
 def run(ctx: core.Ctx):
     core.import_all_jinja()
     ctx.rule = ("(a) all strings of <= k symbols without {{ {% {# (strings are unique per symbol sequence: the pair \\r,\\n "
                 "is represented only by the symbol \\r\\n) x 6 configurations; non-trivial = R-text changes the string; "
                 "distinct = (mode, configuration, line-break skeleton). (b) all fragment sequences x modifier/setting "
                 "grid minus those containing the terminator or printing ambiguously; non-trivial = body contains a "
-                "delimiter look-alike or 'raw'; distinct = (kind, modifiers, setting, set of look-alikes + edge whitespace)")
+                "delimiter look-alike or 'raw'; distinct = (kind, modifiers, setting, set of look-alikes + edge whitespace). "
+                "(c) all strings over the HTML-special alphabet as text and as raw body x 5 autoescape region modes x "
+                "environment autoescape off/on; non-trivial = contains an HTML-special character; distinct = "
+                "(placement, mode, environment, set of special characters)")
     ctx.assumptions += [
         "R-text is written from the Environment docstring (newline_sequence, keep_trailing_newline) and the lexer's "
         "documented line-break set \\r\\n, \\r, \\n",
         "R-ws rules K1-K4 calibrated as in C12 (K2, K3 matter for raw bodies)",
         "context text around comment/raw bodies is fixed: 'a\\n  ' before, '\\n b' after",
         "at the longest string length the comparison is made on Environment.parse output (TemplateData), not on render()",
+        "(c) the escaped form of the probe value '<x>' is '&lt;x&gt;' (documented HTML escaping)",
     ]
     k_render = 5 if ctx.quick else 6
     k_parse = k_render + 1
@@ -300,6 +364,9 @@ def run(ctx: core.Ctx):
     ctx.pmap(text_shard, shards)
     bshards = [((), [0, 1], full_upto)] + [((x, y), list(range(2, k_body + 1)), full_upto) for x in FRAGS for y in FRAGS]
     ctx.pmap(body_shard, bshards)
+    k_esc = 3 if ctx.quick else 4
+    eshards = [((), [0])] + [((x,), list(range(1, k_esc + 1))) for x in ESC_SYMS]
+    ctx.pmap(esc_shard, eshards)
     ctx.viol.sort(key=lambda v: (v[0], v[1].get("size", 0), v[1].get("msg", "")))  # smallest input first per signature
     ctx.cov["bounds"] = {
         "a_render_all_6_configs_max_symbols": k_render,
@@ -311,6 +378,8 @@ def run(ctx: core.Ctx):
         "b_max_fragments": k_body,
         "b_full_modifier_grid_upto_fragments": full_upto,
         "b_grid_full": "comment: 9 modifier pairs x 4 trim/lstrip settings; raw: 6 inner x 2 outer modifier combinations x 4 settings",
+        "c_alphabet": [repr(x) for x in ESC_SYMS], "c_max_symbols": k_esc,
+        "c_modes": [m[0] for m in ESC_MODES], "c_placements": ["text", "raw"], "c_env_autoescape": [False, True],
         "b_grid_longest": "comment: 3 modifier pairs x 2 settings; raw: 6 inner modifier combinations x 2 settings",
     }
-    ctx.cov["shards_completed"] = len(shards) + len(bshards)
+    ctx.cov["shards_completed"] = len(shards) + len(bshards) + len(eshards)
